@@ -72,6 +72,9 @@ OP = st.one_of(
     st.tuples(st.just('extend'), st.lists(BLOCK, min_size=1, max_size=3)),
     st.tuples(st.just('fork'), st.integers(1, 3), st.lists(BLOCK, min_size=1, max_size=3)),
     st.tuples(st.just('force'), st.integers(0, 3)),
+    # the server indexes further blocks, flushes history only (cache pressure) and dies before the
+    # next full flush: the history DB is ahead of the UTXO DB when the next program opens it
+    st.tuples(st.just('extend_die'), st.lists(BLOCK, min_size=1, max_size=3)),
 ).map(list)
 
 CASE = st.builds(
@@ -88,6 +91,10 @@ CASE = st.builds(
     # in neighbouring 2-byte key prefixes (1000 1001 1002, fffe ffff, 0000 0001, 00ff 0100), the
     # unit the compaction cursor walks
     st.sampled_from([0, 0, 1, 2, 3]))
+
+
+class ServerKilled(Exception):
+    '''The indexing server dies at a flush.'''
 
 
 class Killed(BaseException):
@@ -167,6 +174,7 @@ class Machine:
         self.info = {'classes': set()}
         self.compaction_touched = False
         self.rows_exceed_flushes = False
+        self.db_height = None
         self.indexing_allowed = True
         real_init = history_mod.History.__init__
         rows = self.rows
@@ -189,7 +197,44 @@ class Machine:
 
     # ---- helpers ----------------------------------------------------------------------------
     def model(self):
-        return W.Model(self.world.chain(), self.case['activation'])
+        chain = self.world.chain()
+        if self.db_height is not None:
+            # the server died with blocks indexed but not committed: the database stands here
+            chain = chain[:self.db_height + 1]
+        return W.Model(chain, self.case['activation'])
+
+    async def run_server_and_die(self, h0):
+        '''Server start on the directory; after the first block beyond the committed height a
+        history-only flush (what cache pressure does), then process death at the next flush.'''
+        self.close_compacting()
+        self.db_height = None
+        node = Node(self.db_dir, self.world, self.coin, self.limit, flush_plan={}, max_latency=0)
+        state = {'dead': False}
+        try:
+            node.flush_plan[h0 + 1] = 1
+            real_flush = node.bp.flush
+
+            async def flush(flush_utxos):
+                if state['dead']:
+                    raise ServerKilled()
+                await real_flush(flush_utxos)
+                if not flush_utxos:
+                    state['dead'] = True
+            node.bp.flush = flush
+            node.start()
+            try:
+                await node.settle()
+            except NodeDied as e:
+                if not isinstance(e.exc, ServerKilled):
+                    raise
+                self.db_height = h0
+                self.info['classes'].add('server_died_with_history_ahead_of_utxos')
+        finally:
+            try:
+                if not state['dead']:
+                    await node.shutdown()
+            finally:
+                node.close()
 
     def raw_rows(self, history):
         rows = {}
@@ -230,6 +275,7 @@ class Machine:
         '''Normal server start on the directory: settle, optional action, settle, observe, clean
         shutdown.'''
         self.close_compacting()
+        self.db_height = None
         node = Node(self.db_dir, self.world, self.coin, self.limit, flush_plan={}, max_latency=0)
         try:
             node.start()
@@ -394,7 +440,7 @@ class Machine:
                                     f'differs from the history flush count '
                                     f'{db.history.flush_count}', 'flush_count')
                 self.close_compacting()
-            elif kind in ('server', 'extend', 'fork', 'force'):
+            elif kind in ('server', 'extend', 'fork', 'force', 'extend_die'):
                 abandoned = False
                 # (looked up on disk: a refused tool run may have closed the compacting handle)
                 cdb = await self.open_compacting() if self.compaction_touched else None
@@ -413,6 +459,10 @@ class Machine:
                 if kind == 'extend':
                     self.world.extend([self.with_adj(d, 0) for d in op[1]])
                     await self.run_server()
+                elif kind == 'extend_die':
+                    h0 = self.db_height if self.db_height is not None else self.world.height
+                    self.world.extend([self.with_adj(d, 0) for d in op[1]])
+                    await self.run_server_and_die(h0)
                 elif kind == 'fork':
                     h = self.world.height
                     d = max(1, min(op[1], self.limit, h // 2))
